@@ -64,6 +64,7 @@ type c15Case struct {
 	Chart      *c15Chart `json:"chart,omitempty"`       // rt
 	Files      []c15File `json:"files,omitempty"`       // files / dir (dir: includes Chart.yaml and .helmignore)
 	PkgVersion string    `json:"pkg_version,omitempty"` // dir: --version override
+	MaxFile    int64     `json:"max_file,omitempty"`    // loader.MaxDecompressedFileSize for this case (0 = default)
 	Note       string    `json:"note,omitempty"`
 }
 
@@ -281,6 +282,9 @@ func c15ListTree(root string) []c15File {
 
 // ---------------------------------------------------------------- execute
 
+// c15MaxFile: the per-file limit of the case being executed (0 = default), for the oracle table
+var c15MaxFile int64
+
 func (p *c15) Execute(ci any) (out any) {
 	c := ci.(c15Case)
 	defer func() {
@@ -293,6 +297,13 @@ func (p *c15) Execute(ci any) (out any) {
 		return c15Obs{Panic: "mkdtemp: " + err.Error()}
 	}
 	defer os.RemoveAll(tmp)
+	// the per-file limit is a package variable: lowered for boundary cases, restored afterwards
+	if c.MaxFile > 0 {
+		old := loader.MaxDecompressedFileSize
+		loader.MaxDecompressedFileSize = c.MaxFile
+		defer func() { loader.MaxDecompressedFileSize = old }()
+	}
+	c15MaxFile = c.MaxFile
 	var obs c15Obs
 	switch c.Kind {
 	case "rt":
@@ -521,6 +532,17 @@ func c15Wf(s *c15Chart, top bool) bool {
 		if _, err := loader.LoadValues(bytes.NewReader(bytes.TrimPrefix(s.Values, c15Bom))); err != nil {
 			return false
 		}
+	}
+	lim := loader.MaxDecompressedFileSize // set by Execute for the case
+	for _, l := range [][]c15File{s.Templates, s.Files} {
+		for _, f := range l {
+			if int64(len(f.Data)) > lim {
+				return false
+			}
+		}
+	}
+	if int64(len(s.Values)) > lim || int64(len(s.Schema)) > lim {
+		return false
 	}
 	hasReqYaml, hasReqLock := false, false
 	names := map[string]bool{} // one file per name, no name that is also a directory
